@@ -20,21 +20,26 @@ Ev      == Trace[l]
 Is(e)   == l <= Len(Trace) /\ Trace[l].e = e
 Step    == l' = l + 1
 
-DefaultCfg == [syncw |-> FALSE, strict |-> TRUE, bg |-> FALSE]
+DefaultCfg == [syncw |-> FALSE, strict |-> TRUE, bg |-> FALSE, dur |-> TRUE]
 
 TInit ==
   /\ InitAbs(DefaultCfg)
   /\ l = 1
   /\ TLCSet(1, 1)
 
-TReset == Is("reset") /\ Step /\ ResetAbs([syncw |-> Ev.syncw, strict |-> Ev.strict, bg |-> Ev.bg])
+TReset == Is("reset") /\ Step /\ ResetAbs([syncw |-> Ev.syncw, strict |-> Ev.strict, bg |-> Ev.bg, dur |-> Ev.dur])
 
 TInv   == Is("inv") /\ Step /\ Inv(Ev.t, Ev)
 
 TRet   == Is("ret") /\ Step /\
-          (RetOk(Ev.t, Ev) \/ RetErr(Ev.t, Ev) \/ ScanRet(Ev.t, Ev) \/ ScanDone(Ev.t, Ev))
+          (RetOk(Ev.t, Ev) \/ RetErr(Ev.t, Ev) \/ RetRacingRead(Ev.t, Ev) \/ ScanRet(Ev.t, Ev) \/ ScanDone(Ev.t, Ev))
 
-TLin   == l <= Len(Trace) /\ UNCHANGED l /\ \E t \in Threads : Lin(t)
+\* Just-in-time linearization: a silent Lin step is only taken when the next event is the response
+\* of a call that has not taken effect yet (then some pending calls are linearized, ending with that
+\* one).  Every linearization order can be scheduled this way (delay each Lin as long as the order
+\* allows), so nothing is lost, and the search does not branch at invocation events.
+TLin   == /\ Is("ret") /\ pend[Ev.t].st = "inv"
+          /\ UNCHANGED l /\ \E t \in Threads : Lin(t)
 
 TScanStart == Is("scan_start") /\ Step /\ ScanStart(Ev.s)
 
